@@ -49,7 +49,6 @@ var arithJustified = map[string]string{
 	"yang.(Number).frac: mul uint64":                    "Trunc()*10^f <= Value (quotient times the same divisor)",
 	"yang.(Number).frac: mul uint64 #2":                 "(Value mod 10^f) * 10^(18-f) < 10^18",
 	"yang.(Number).frac: sub uint64":                    "Value - Trunc()*10^f >= 0 (remainder)",
-	"yang.(Number).frac: sub uint8":                     "18 - f for f in 0..18 (fraction-digits domain)",
 	"yang.(Number).String: convert uint8→int":           "widening",
 	"yang.(*Type).resolve: convert int64→int":           "operand is the result of asRangeInt(1, 18)",
 	"yang.(*Type).resolve: convert int64→uint8":         "operand is the result of asRangeInt(1, 18)",
@@ -195,7 +194,6 @@ var arithShape = map[string]string{
 	"yang.(Number).frac: mul uint64 #2":                 "((.Value - (Trunc(…) * pow10(…))) * pow10((18 - .FractionDigits)))",
 	"yang.(Number).frac: mul uint64":                    "(Trunc(local) * pow10(.FractionDigits))",
 	"yang.(Number).frac: sub uint64":                    "(.Value - (Trunc(local) * pow10(.FractionDigits)))",
-	"yang.(Number).frac: sub uint8":                     "(18 - .FractionDigits)",
 	"yang.decimalValueFromString: convert int64→uint64": "uint64(var)",
 	"yang.pow10: add uint8":                             "(var + 1)",
 	"yang.pow10: mul uint64":                            "(var * 10)",
